@@ -178,6 +178,7 @@ def run_history(hist, acc):
     """hist: list of ops: ["call", fn, snap, nowrap, per] | ["clear", fn]"""
     w = World()
     model = Model()
+    model_b = Model()
     viols = []
     nontrivial = False
     ctx = f"history={hist}"
@@ -188,6 +189,9 @@ def run_history(hist, acc):
             if op[0] == "clear":
                 (w.ps.net_io_counters if op[1] == "net" else w.ps.disk_io_counters).cache_clear()
                 model.clear(op[1])
+                for key in list(model_b.st):
+                    if key.startswith(op[1] + "/"):
+                        model_b.clear(key)
                 nontrivial = True
                 prev_out.pop(op[1], None)
                 continue
@@ -206,11 +210,16 @@ def run_history(hist, acc):
                     viols.append(("empty_convention", ctx + f" at op#{idx} got={got!r}"))
                 if nowrap:
                     model.call(fn, snap, True)
+                    model_b.call(f"{fn}/{per if fn == 'disk' else 'x'}", view, True)
                     prev_out[fn] = {}
                 continue
-            # the statement speaks of devices that stay present *in the kernel's listing*: history is kept on the
-            # unfiltered snapshot, the perdisk=False form merely leaves partitions out of the total
+            # the statement speaks of devices that stay present *in the kernel's listing* over "successive calls".
+            # Two readings are accepted: (A) one history per function over every nowrap call (unfiltered snapshot, the
+            # perdisk=False form merely leaves partitions out of the total), (B) one history per function *and form*
+            # (the successive calls of the same form). The pre-fix behaviour (one history, fed filtered views, so that
+            # partitions "disappear" whenever the total is asked) matches neither.
             want = expected_view(fn, model.call(fn, snap, nowrap), per)
+            want_b = model_b.call(f"{fn}/{per if fn == 'disk' else 'x'}", view, nowrap)
             if nowrap:
                 acc.count("nowrap_calls_checked")
             if per:
@@ -230,7 +239,7 @@ def run_history(hist, acc):
                 elif fn == "disk" and len({o[4] for o in hist[:idx + 1] if o[0] == "call" and o[1] == "disk" and o[3]}) > 1:
                     feature = ":alternating_perdisk"
             if per:
-                if gotd != want:
+                if gotd != want and gotd != want_b:
                     viols.append((f"value_mismatch{feature}", ctx + f" at op#{idx} got={gotd} want={want}"))
                 if nowrap and fn in prev_out:
                     for k, row in gotd.items():
@@ -244,7 +253,7 @@ def run_history(hist, acc):
                     # a device that is absent from this snapshot legitimately starts afresh later
                     prev_out[fn] = {k: v for k, v in prev_out[fn].items() if k in snap}
                 wt = total(want, nf)
-                if tuple(got) != wt:
+                if tuple(got) != wt and tuple(got) != total(want_b, nf):
                     viols.append((f"total_mismatch{feature}", ctx + f" at op#{idx} got={tuple(got)} want={wt}"))
         w.clear_all()
     # wrap events in the history (for the non-trivial rule)
